@@ -515,6 +515,16 @@ func (xd *Extension) Message() protoreflect.MessageDescriptor           { return
 func (xd *Extension) Format(s fmt.State, r rune)                        { descfmt.FormatDesc(s, r, xd) }
 func (xd *Extension) ProtoType(protoreflect.FieldDescriptor)            {}
 func (xd *Extension) ProtoInternal(pragma.DoNotImplement)               {}
+
+// EnforceUTF8 is a pseudo-internal API to determine whether to enforce UTF-8
+// validation for the string extension field. See [Field.EnforceUTF8].
+//
+// WARNING: This method is exempt from the compatibility promise and may be
+// removed in the future without warning.
+func (xd *Extension) EnforceUTF8() bool {
+	return xd.L1.EditionFeatures.IsUTF8Validated
+}
+
 func (xd *Extension) lazyInit() *ExtensionL2 {
 	xd.L0.ParentFile.lazyInit() // implicitly initializes L2
 	return xd.L2
